@@ -551,7 +551,11 @@ func runTmpl(r *runner) {
 			fl = append(fl, fmt.Sprintf("%08x:%s", b, hx(fmt.Sprint(math.Float32frombits(b)))))
 		}
 		status := d.status()
-		pj, _ := json.Marshal(status.Partitions)
+		var pj []byte
+		func() {
+			defer func() { _ = recover() }() // a panicking marshaller is the real execution's finding, not the oracle's
+			pj, _ = json.Marshal(status.Partitions)
+		}()
 		r.resolve("%s ser=%s fmt=%s f32=%s pjson=%s", line, ser, fms, strings.Join(fl, ";"), hx(string(pj)))
 		extras := map[string]string{}
 		for _, kv := range d.extras {
